@@ -253,3 +253,379 @@ def _st_FunctionDef(self, s, st):
 
 
 symex.Exec.st_FunctionDef = _st_FunctionDef
+
+
+# ----------------------------------------------------------------------------------------------
+# sample.sample_lhs, element level (unit sample.sample_lhs.bounds): the models of ttvc/rnd.py state multiset counts; here the same calls
+# additionally state where the ELEMENTS of their results come from
+_orig_repeat = M.FUNCS['np.repeat']
+
+
+@model('np.repeat')
+def m_repeat_elems(ex, st, args, kwargs, node):
+    out = _orig_repeat(ex, st, args, kwargs, node)
+    a = st.deref(args[0]) if args else None
+    if on(ex) and isinstance(out, VArr) and out.ndim == 1 and out.tag == 'ivec' and isinstance(a, VArr) and a.ndim == 1 and a.tag == 'ivec' \
+            and a.t is not None and not callable(a.t) and out.t is not None:
+        used('np.repeat(v, c): every element of the result is an element of v')
+        src = ex.fresh('repsrc', IA)
+        st.assume(z3.ForAll([_i], z3.Implies(z3.And(0 <= _i, _i < Z(out.shape[0])), z3.And(0 <= src[_i], src[_i] < Z(a.shape[0]), out.t[_i] == a.t[src[_i]])),
+                            patterns=[out.t[_i]]))
+    return out
+
+
+_orig_concat2 = M.FUNCS['np.concatenate']
+
+
+@model('np.concatenate')
+def m_concat_elems(ex, st, args, kwargs, node):
+    out = _orig_concat2(ex, st, args, kwargs, node)
+    parts = st.deref(args[0]) if args else None
+    if on(ex) and isinstance(out, VArr) and out.ndim == 1 and out.tag == 'ivec' and getattr(out, 'parts', None) is None \
+            and isinstance(parts, (VList, VTuple)) and len(parts.items) == 2 and out.t is not None:
+        u, v = [st.deref(x) for x in parts.items]
+        if all(isinstance(x, VArr) and x.ndim == 1 and x.tag == 'ivec' and x.t is not None and not callable(x.t) for x in (u, v)):
+            used('np.concatenate([u, v]) for vectors: the elements of u followed by the elements of v')
+            lu = Z(u.shape[0])
+            st.assume(z3.ForAll([_i], z3.Implies(z3.And(0 <= _i, _i < lu + Z(v.shape[0])), out.t[_i] == z3.If(_i < lu, u.t[_i], v.t[_i - lu])), patterns=[out.t[_i]]))
+    return out
+
+
+_orig_method = M.method
+
+
+def method(ex, st, recv, name, args, kwargs, node):
+    r = st.deref(recv)
+    out = _orig_method(ex, st, recv, name, args, kwargs, node)
+    if on(ex) and isinstance(r, R.VGen) and name == 'choice' and kwargs.get('replace', True) is False and isinstance(out, VArr) and out.ndim == 1 \
+            and out.tag == 'ivec' and out.t is not None and args:
+        k = Z(ex.need_num(st, args[0], node))
+        used('Generator.choice(k, s, replace=False): every drawn element lies in [0, k)')
+        st.assume(z3.ForAll([_i], z3.And(0 <= out.t[_i], out.t[_i] < k), patterns=[out.t[_i]]))
+    return out
+
+
+M.method = method
+
+
+# ==============================================================================================
+# optima.optima_tt_beam: the candidate table.  Two value kinds:
+#   * 'imat' integer matrices with element-level rows (see above): the index table I;
+#   * 'qvecs' float matrices held as a family of VECTORS with a denotation in the matrix theory: `vecs[s]` (sort Mat) is row s as a
+#     1 x b matrix (axis 0: left-to-right sweep) or column s as an a x 1 matrix (axis 1: right-to-left sweep).
+# Row numbers of C-ordered reshapes / Kronecker products are decoded by the theory functions qd(u, n) = u div n and qm(u, n) = u mod n
+# (group 'qdm'; uninterpreted inside the proofs, so that the SAME terms appear on the Q side and on the I side of the beam).
+qd = z3.Function('qd', I, I, I)
+qm = z3.Function('qm', I, I, I)
+ichain = z3.Function('ichain', T.TT, T.IDX, I, I, I, T.Mat)      # prod_{m=lo..hi} sl(Y[m], ix[m - off])   (args: Y, ix, off, lo, hi)
+_u, _n, _c, _lo, _hi, _off, _lo2 = z3.Ints('u!o n!o c!o lo!o hi!o off!o lo2!o')
+_Y = z3.Const('Y!o', T.TT)
+_ix = z3.Const('ix!o', T.IDX)
+T.GROUPS['qdm'] = [
+    T.A([_u, _n], z3.Implies(z3.And(_u >= 0, _n >= 1), z3.And(_u == qd(_u, _n) * _n + qm(_u, _n), 0 <= qm(_u, _n), qm(_u, _n) < _n, qd(_u, _n) >= 0)),
+        [qd(_u, _n)], ),
+    T.A([_u, _n], z3.Implies(z3.And(_u >= 0, _n >= 1), z3.And(0 <= qm(_u, _n), qm(_u, _n) < _n)), [qm(_u, _n)]),
+    T.A([_u, _n, _c], z3.Implies(z3.And(_u >= 0, _n >= 1, _c >= 0, _u < T.mulI(_c, _n)), qd(_u, _n) < _c), [z3.MultiPattern(qd(_u, _n), T.mulI(_c, _n))]),
+    T.A([_u, _n, _c], z3.Implies(z3.And(_u >= 0, _n >= 1, _c >= 0, _u < T.mulI(_n, _c)), qd(_u, _n) < _c), [z3.MultiPattern(qd(_u, _n), T.mulI(_n, _c))]),
+]
+T.GROUPS['ichain'] = [
+    T.A([_Y, _ix, _off, _hi], z3.Implies(_hi - _off >= 0, ichain(_Y, _ix, _off, _hi, _hi) == T.sl(_Y[_hi], _ix[_hi - _off])), [ichain(_Y, _ix, _off, _hi, _hi)]),
+    T.A([_Y, _ix, _off, _lo, _lo2, _hi], z3.Implies(z3.And(_lo >= 0, _lo - _off >= 0, _lo2 == _lo + 1, _lo2 <= _hi),
+                                                    ichain(_Y, _ix, _off, _lo, _hi) == T.mm(T.sl(_Y[_lo], _ix[_lo - _off]), ichain(_Y, _ix, _off, _lo2, _hi))),
+        [z3.MultiPattern(ichain(_Y, _ix, _off, _lo, _hi), ichain(_Y, _ix, _off, _lo2, _hi))]),
+]
+MatA = z3.ArraySort(I, T.Mat)
+
+
+def qvecs(shape, vecs, axis, base=None):
+    out = VArr(shape, None, 'qvecs', 'f')
+    out.vecs, out.axis, out.base = vecs, axis, base
+    return out
+
+
+def is_qvecs(v):
+    return isinstance(v, VArr) and v.tag == 'qvecs' and v.ndim == 2 and getattr(v, 'vecs', None) is not None
+
+
+def is_imat(v):
+    return isinstance(v, VArr) and v.tag == 'imat' and v.ndim == 2 and getattr(v, 'rows', None) is not None and not v.transposed
+
+
+def rows_count(*f):
+    return T.mul_canon(*f)
+
+
+_orig_ones = M.FUNCS['teneva._ones']
+
+
+@model('teneva._ones')
+def m_ones_elems(ex, st, args, kwargs, node):
+    if on(ex) and not kwargs and 1 <= len(args) <= 2:
+        k = ex.need_num(st, args[0], node)
+        m = ex.need_num(st, args[1], node) if len(args) > 1 else 1
+        if is_intsort(k) and is_intsort(m):
+            used('teneva._ones(k, m) -> the k x m integer matrix of ones')
+            rows = ex.fresh('ones', IM)
+            st.assume(z3.ForAll([_i, _k], rows[_i][_k] == 1, patterns=[rows[_i][_k]]))
+            out = imat(rows, k, m)
+            out.ones = True
+            return out
+    return _orig_ones(ex, st, args, kwargs, node)
+
+
+_orig_reshape = M.reshape
+
+
+def reshape(ex, st, a, shp, order, node):
+    if on(ex) and isinstance(a, VArr):
+        o = order.concrete() if isinstance(order, VStr) else None
+        dims = M.shape_arg(ex, st, shp, node)
+        # np.arange(n).reshape(-1, 1): the column 0 .. n-1
+        if a.ndim == 1 and a.tag == 'ivec' and a.t is not None and not callable(a.t) and len(dims) == 2 and o == 'C' \
+                and isinstance(dims[0], int) and dims[0] == -1 and isinstance(dims[1], int) and dims[1] == 1:
+            used('v.reshape(-1, 1) of an integer vector -> the column with the same elements')
+            rows = ex.fresh('col', IM)
+            st.assume(z3.ForAll([_i], rows[_i][0] == a.t[_i], patterns=[rows[_i]]))
+            return imat(rows, a.shape[0], 1)
+        # G.reshape(n, r2) of a core with r1 = 1 / G.reshape(r1, n) of a core with r2 = 1 (C order): the mode slices as rows / columns
+        if a.ndim == 3 and a.tag == 'core' and a.t is not None and len(dims) == 2 and o == 'C' and all(is_intsort(x) for x in dims) \
+                and not any(isinstance(x, int) and x < 0 for x in dims):
+            r1, n, r2 = a.shape
+            axis = getattr(ex, 'opt_axis', None)
+            if axis == 0:
+                used('G.reshape(n, r2) of a core with r1 = 1 (C order) -> row i is the slice G[0, i, :]; requires r1 = 1 and the shape (n, r2)')
+                ex.oblige(st, 'call-pre', 'first-core-reshape: r1 = 1 and the target shape is (n, r2)',
+                          z3.And(Z(r1) == 1, Z(dims[0]) == Z(n), Z(dims[1]) == Z(r2)), node)
+            elif axis == 1:
+                used('G.reshape(r1, n) of a core with r2 = 1 (C order) -> column i is the slice G[:, i, 0]; requires r2 = 1 and the shape (r1, n)')
+                ex.oblige(st, 'call-pre', 'last-core-reshape: r2 = 1 and the target shape is (r1, n)',
+                          z3.And(Z(r2) == 1, Z(dims[0]) == Z(r1), Z(dims[1]) == Z(n)), node)
+            else:
+                raise Unsupported('reshape of a core to a matrix: sweep direction of the contract case is not set')
+            vecs = ex.fresh('Qv', MatA)
+            st.assume(z3.ForAll([_i], vecs[_i] == T.sl(a.t, _i), patterns=[vecs[_i]]))
+            return qvecs((dims[0], dims[1]), vecs, axis, base=a.t)
+        # (c, n, r2) -> (-1, r2)   /   (r1, n, c) -> (r1, -1)      (C order)
+        if a.ndim == 3 and a.tag == 'q3' and len(dims) == 2 and o == 'C':
+            c, G, vecs = a.cnt, a.core, a.vecs
+            n = T.d1(G)
+            if a.axis == 0 and isinstance(dims[0], int) and dims[0] == -1:
+                used('X.reshape(-1, r2) of a (c, n, r2) array (C order) -> row u is X[u div n, u mod n, :]; requires the last dimension to be r2')
+                ex.oblige(st, 'call-pre', 'reshape-keeps-the-rank-dimension', Z(dims[1]) == Z(a.shape[2]), node)
+                new = ex.fresh('Qv', MatA)
+                st.assume(z3.ForAll([_u], new[_u] == T.mm(vecs[qd(_u, n)], T.sl(G, qm(_u, n))), patterns=[new[_u]]))
+                return qvecs((rows_count(c, n), a.shape[2]), new, 0)
+            if a.axis == 1 and isinstance(dims[1], int) and dims[1] == -1:
+                used('X.reshape(r1, -1) of a (r1, n, c) array (C order) -> column u is X[:, u div c, u mod c]; requires the first dimension to be r1')
+                ex.oblige(st, 'call-pre', 'reshape-keeps-the-rank-dimension', Z(dims[0]) == Z(a.shape[0]), node)
+                new = ex.fresh('Qv', MatA)
+                st.assume(z3.ForAll([_u], new[_u] == T.mm(T.sl(G, qd(_u, c)), vecs[qm(_u, c)]), patterns=[new[_u]]))
+                return qvecs((a.shape[0], rows_count(n, c)), new, 1)
+            raise Unsupported('reshape of the extended candidate array')
+    return _orig_reshape(ex, st, a, shp, order, node)
+
+
+M.reshape = reshape
+_orig_binop = M.arr_binop
+
+
+def arr_binop(ex, st, op, l, r, node):
+    if on(ex) and is_qvecs(l) and not isinstance(r, VArr) and isinstance(op, (ast.Mult, ast.Div)):
+        c = ex.need_num(st, r, node)
+        if isinstance(op, ast.Mult):
+            used('Q * x for a scalar x -> every row / column scaled by x')
+            new = ex.fresh('Qv', MatA)
+            st.assume(z3.ForAll([_i], new[_i] == T.smul(to_real(c), l.vecs[_i]), patterns=[new[_i]]))
+            out = qvecs(l.shape, new, l.axis, l.base)
+            out.scaled_from, out.factor = l, to_real(c)
+            return out
+        used('Q / x for a NumPy scalar x -> elementwise quotient, values not interpreted (a zero divisor gives inf / nan and a warning, not an exception)')
+        return VArr(l.shape, None, None)
+    return _orig_binop(ex, st, op, l, r, node)
+
+
+M.arr_binop = arr_binop
+_orig_einsum = M.FUNCS['np.einsum']
+
+
+@model('np.einsum')
+def m_einsum_beam(ex, st, args, kwargs, node):
+    sub = args[0].concrete() if args and isinstance(args[0], VStr) else None
+    key = (sub or '').replace(' ', '')
+    if on(ex) and len(args) == 3 and set(kwargs) <= {'optimize'}:
+        a, b = st.deref(args[1]), st.deref(args[2])
+        if key == 'kr,riq->kiq' and is_qvecs(a) and a.axis == 0 and isinstance(b, VArr) and b.ndim == 3 and b.tag == 'core' and b.t is not None:
+            used("np.einsum('kr,riq->kiq', Q, G) -> X[s, i, :] = Q[s, :] @ G[:, i, :]; requires cols Q = r1")
+            ex.oblige(st, 'call-pre', 'einsum-contracted-dimensions-agree', Z(a.shape[1]) == Z(b.shape[0]), node)
+            out = VArr((a.shape[0], b.shape[1], b.shape[2]), None, 'q3')
+            out.vecs, out.core, out.cnt, out.axis = a.vecs, b.t, a.shape[0], 0
+            return out
+        if key == 'qir,rk->qik' and is_qvecs(b) and b.axis == 1 and isinstance(a, VArr) and a.ndim == 3 and a.tag == 'core' and a.t is not None:
+            used("np.einsum('qir,rk->qik', G, Q) -> X[:, i, t] = G[:, i, :] @ Q[:, t]; requires r2 = rows Q")
+            ex.oblige(st, 'call-pre', 'einsum-contracted-dimensions-agree', Z(a.shape[2]) == Z(b.shape[0]), node)
+            out = VArr((a.shape[0], a.shape[1], b.shape[1]), None, 'q3')
+            out.vecs, out.core, out.cnt, out.axis = b.vecs, a.t, b.shape[1], 1
+            return out
+    return _orig_einsum(ex, st, args, kwargs, node)
+
+
+_orig_kron = M.FUNCS['np.kron']
+
+
+@model('np.kron')
+def m_kron_tables(ex, st, args, kwargs, node):
+    a, b = (st.deref(args[0]), st.deref(args[1])) if len(args) == 2 else (None, None)
+    if on(ex) and is_imat(a) and is_imat(b) and not kwargs:
+        if getattr(b, 'ones', False) and isinstance(b.shape[1], int) and b.shape[1] == 1:
+            n = Z(b.shape[0])
+            used('np.kron(A, ones((n, 1))) -> every row of A repeated n times in a row: row u is A[u div n]')
+            rows = ex.fresh('kron', IM)
+            st.assume(z3.ForAll([_u], rows[_u] == a.rows[qd(_u, n)], patterns=[rows[_u]]))
+            return imat(rows, rows_count(a.shape[0], n), a.shape[1])
+        if getattr(a, 'ones', False) and isinstance(a.shape[1], int) and a.shape[1] == 1:
+            n = Z(b.shape[0])
+            used('np.kron(ones((c, 1)), B) -> B repeated c times one below the other: row u is B[u mod rows(B)]')
+            rows = ex.fresh('kron', IM)
+            st.assume(z3.ForAll([_u], rows[_u] == b.rows[qm(_u, n)], patterns=[rows[_u]]))
+            return imat(rows, rows_count(a.shape[0], n), b.shape[1])
+        raise Unsupported('np.kron of two index tables neither of which is a column of ones')
+    return _orig_kron(ex, st, args, kwargs, node)
+
+
+_orig_hstack = M.FUNCS['np.hstack']
+
+
+@model('np.hstack')
+def m_hstack_tables(ex, st, args, kwargs, node):
+    parts = st.deref(args[0]) if args else None
+    if on(ex) and isinstance(parts, (VTuple, VList)) and len(parts.items) == 2 and not kwargs:
+        a, b = [st.deref(x) for x in parts.items]
+        if is_imat(a) and is_imat(b):
+            used('np.hstack((A, B)) for integer matrices -> row u is A[u] followed by B[u]; requires equal row counts')
+            ex.oblige(st, 'call-pre', 'hstack-rows-agree', Z(a.shape[0]) == Z(b.shape[0]), node)
+            wa = Z(a.shape[1])
+            rows = ex.fresh('hst', IM)
+            st.assume(z3.ForAll([_u, _k], rows[_u][_k] == z3.If(_k < wa, a.rows[_u][_k], b.rows[_u][_k - wa]), patterns=[rows[_u][_k]]))
+            return imat(rows, a.shape[0], z3.simplify(wa + Z(b.shape[1])))
+    return _orig_hstack(ex, st, args, kwargs, node)
+
+
+_orig_sum = M.FUNCS['np.sum']
+
+
+@model('np.sum')
+def m_sum_axis(ex, st, args, kwargs, node):
+    a = st.deref(args[0]) if args else None
+    ax = kwargs.get('axis')
+    if on(ex) and isinstance(a, VArr) and a.ndim == 2 and a.t is None and len(args) == 1 and set(kwargs) == {'axis'} and isinstance(ax, int) and ax in (0, 1):
+        used('np.sum(A, axis) of a matrix -> vector over the other axis (values not interpreted)')
+        out = VArr((a.shape[1 - ax],), None, 'scores')
+        return out
+    return _orig_sum(ex, st, args, kwargs, node)
+
+
+_orig_argsort = M.FUNCS['np.argsort']
+
+
+@model('np.argsort')
+def m_argsort_scores(ex, st, args, kwargs, node):
+    v = st.deref(args[0]) if args else None
+    if on(ex) and isinstance(v, VArr) and v.ndim == 1 and v.tag == 'scores' and len(args) == 1 and not kwargs:
+        used('np.argsort(w) -> a permutation of 0 .. len(w)-1')
+        out = VArr(v.shape, None, 'perm', 'i')
+        return out
+    return _orig_argsort(ex, st, args, kwargs, node)
+
+
+def _neg_k_plus_1(e):
+    """the AST of -(k+1): returns the AST of k"""
+    if isinstance(e, ast.UnaryOp) and isinstance(e.op, ast.USub) and isinstance(e.operand, ast.BinOp) and isinstance(e.operand.op, ast.Add) \
+            and isinstance(e.operand.right, ast.Constant) and e.operand.right.value == 1:
+        return e.operand.left
+    return None
+
+
+_orig_index = M.arr_index
+
+
+def _full(e):
+    return isinstance(e, ast.Slice) and e.lower is None and e.upper is None and e.step is None
+
+
+def _is_sel(v):
+    return isinstance(v, VArr) and v.ndim == 1 and v.tag == 'ivec' and getattr(v, 'sel_of', None) is not None
+
+
+def arr_index(ex, st, a, sl_, node):
+    if on(ex) and isinstance(a, VArr):
+        elts = sl_.elts if isinstance(sl_, ast.Tuple) else [sl_]
+        # argsort(w)[:-(k+1):-1]: the positions of the k largest, at most len(w) of them
+        if a.ndim == 1 and a.tag == 'perm' and len(elts) == 1 and isinstance(elts[0], ast.Slice) and elts[0].lower is None \
+                and elts[0].upper is not None and elts[0].step is not None and ex.ev(elts[0].step, st) == -1:
+            kast = _neg_k_plus_1(elts[0].upper)
+            if kast is None:
+                raise Unsupported('slice of a permutation other than [:-(k+1):-1]')
+            k = ex.need_num(st, ex.ev(kast, st), node)
+            if not is_intsort(k):
+                raise Unsupported('number of kept candidates is not an integer')
+            n = Z(a.shape[0])
+            used('argsort(w)[:-(k+1):-1] (k >= 0) -> min(k, len w) DISTINCT positions in [0, len w) (those of the largest elements, largest first)')
+            ex.oblige(st, 'call-pre', 'number-of-kept-candidates-is-non-negative', Z(k) >= 0, node)
+            arr = ex.fresh('sel', IA)
+            ln = z3.If(Z(k) < n, Z(k), n)
+            _j2 = z3.Int('j2!o')
+            st.assume(z3.ForAll([_i], z3.Implies(z3.And(0 <= _i, _i < ln), z3.And(0 <= arr[_i], arr[_i] < n)), patterns=[arr[_i]]),
+                      z3.ForAll([_i, _j2], z3.Implies(z3.And(0 <= _i, _i < _j2, _j2 < ln), arr[_i] != arr[_j2]), patterns=[z3.MultiPattern(arr[_i], arr[_j2])]))
+            out = ivec(ln, arr)
+            out.sel_of = n
+            return out
+        # gathers with the selected positions
+        if a.ndim == 2 and len(elts) == 2:
+            i0 = st.deref(ex.ev(elts[0], st)) if not isinstance(elts[0], ast.Slice) else None
+            i1 = st.deref(ex.ev(elts[1], st)) if not isinstance(elts[1], ast.Slice) else None
+            if is_imat(a) and _is_sel(i0) and _full(elts[1]):
+                used('A[ind, :] -> the rows of A at the positions ind (requires the positions to be row numbers of A)')
+                ex.oblige(st, 'call-pre', 'selected-positions-are-row-numbers-of-the-index-table', i0.sel_of == Z(a.shape[0]), node)
+                rows = ex.fresh('gather', IM)
+                st.assume(z3.ForAll([_i], rows[_i] == a.rows[i0.t[_i]], patterns=[rows[_i]]))
+                out = imat(rows, i0.shape[0], a.shape[1])
+                out.gathered = (a, i0)
+                return out
+            if is_qvecs(a) and ((a.axis == 0 and _is_sel(i0) and _full(elts[1])) or (a.axis == 1 and _is_sel(i1) and _full(elts[0]))):
+                ind = i0 if a.axis == 0 else i1
+                used('Q[ind, :] / Q[:, ind] -> the rows / columns of Q at the positions ind (requires the positions to be row / column numbers of Q)')
+                ex.oblige(st, 'call-pre', 'selected-positions-are-vector-numbers-of-the-candidate-matrix', ind.sel_of == Z(a.shape[a.axis]), node)
+                new = ex.fresh('Qv', MatA)
+                st.assume(z3.ForAll([_i], new[_i] == a.vecs[ind.t[_i]], patterns=[new[_i]]))
+                shp = (ind.shape[0], a.shape[1]) if a.axis == 0 else (a.shape[0], ind.shape[0])
+                out = qvecs(shp, new, a.axis)
+                out.gathered = (a, ind)
+                return out
+            if is_qvecs(a) and (_is_sel(i0) or _is_sel(i1)):
+                raise Unsupported('selection along the wrong axis of the candidate matrix')
+        if is_imat(a) and len(elts) == 1 and not isinstance(elts[0], ast.Slice):
+            iv = ex.need_num(st, ex.ev(elts[0], st), node)
+            i = M.norm_index(ex, st, iv, a.shape[0], node, 'row-index')
+            used('A[i] of an integer matrix -> row i')
+            out = ivec(a.shape[1], a.rows[Z(i)])
+            out.src = (a.rows, Z(i))
+            return out
+    return _orig_index(ex, st, a, sl_, node)
+
+
+M.arr_index = arr_index
+_orig_subscript = M.subscript
+
+
+def subscript(ex, st, base, sl_, node):
+    b = st.deref(base)
+    if on(ex) and isinstance(b, VSeq) and b.tag == 'core' and isinstance(sl_, ast.Slice) and sl_.lower is None and sl_.upper is None \
+            and sl_.step is not None and ex.ev(sl_.step, st) == -1:
+        used('list[::-1] -> the reversed list')
+        arr = ex.fresh('rev', b.arr.sort())
+        st.assume(z3.ForAll([_k], arr[_k] == b.arr[b.n - 1 - _k], patterns=[arr[_k]]))
+        return st.alloc(VSeq(arr, b.n, b.wrap, b.tag, getattr(b, 'unwrap', None)))
+    return _orig_subscript(ex, st, base, sl_, node)
+
+
+M.subscript = subscript
